@@ -234,7 +234,31 @@ Section C08.
     row_cell F T D feqb teqb deqb f_eq_Z parse_float parse_time_np parse_time_fmt parse_time_pd parse_delta hive pm path (k, map (@VStr F T D) xs)
     = Some (k, VStr x).
   Proof. exact (text_level_read F T D feqb teqb deqb f_eq_Z parse_float parse_time_np parse_time_fmt parse_time_pd parse_delta). Qed.
+
+  (* ---- drill levels WITHOUT any text (wave 4): integers mixed with floats / booleans / dates, or text that all looks like them.  The
+     labels are guesses of the level's directory texts, and a row group reads a label that is == (Python's ==: 1 == 1.0 == True) to the guess
+     of its own directory text - numerically equal, not necessarily of the same kind. *)
+  Theorem C08_drill_numeric_level : forall (hits : list (str * str)) st,
+    fold_left (add_hit F T D feqb teqb deqb f_eq_Z parse_float parse_time_np parse_time_fmt parse_time_pd parse_delta []) hits (Ok (st0 F T D)) = Ok st ->
+    forall k, (forall x', In (k, x') hits -> is_vstr F T D (parse_guess x') = false) ->
+    forall x, In (k, x) hits ->
+    exists labels, In (k, labels) (final_cats F T D st) /\
+      (forall v, In v labels -> exists x0, In (k, x0) hits /\ v = parse_guess x0) /\
+      exists i v, index_of veqb (parse_guess x) labels = Some i /\ nth_error labels i = Some v /\ veqb (parse_guess x) v = true.
+  Proof.
+    exact (drill_numeric_level F T D feqb teqb deqb f_eq_Z parse_float parse_time_np parse_time_fmt parse_time_pd parse_delta feqb_spec teqb_spec deqb_spec).
+  Qed.
 End C08.
+
+(* ... and "the guessed value ITSELF comes back" is false on the faithful model: directories 1 and True, the rows of True read the integer 1
+   (the oracle's drill rule accepts exactly this: the key text, its guess, or a number equal to the guess) *)
+Theorem C08_drill_numeric_level_exact_refuted :
+  exists rows, cread [] (cwrite false [s_ "k"] [rows])
+             = Some (Drill, [([(s_ "dir0", VInt 1)], 0%nat); ([(s_ "dir0", VInt 1)], 1%nat)])
+             /\ parse_guess E0 E0 E0 (fun _ _ => None) (fun _ => None) (fun _ => None) (s_ "True") = VBool true.
+Proof. exact numeric_level_exact_refuted. Qed.
+Print Assumptions C08_drill_numeric_level_exact_refuted.
+Print Assumptions C08_drill_numeric_level.
 
 Print Assumptions C08_drill_mixed_level_is_text.
 Print Assumptions C08_text_level_reads_own_directory.
